@@ -89,7 +89,7 @@ func (vm *VM) compile(ctx context.Context, text *text, s string, args ...interfa
 	}
 
 	for p.More() {
-		p.Vars = p.Vars[:]
+		p.Vars = p.Vars[:0]
 		t, err := p.Term()
 		if err != nil {
 			return err
